@@ -278,7 +278,15 @@ fn family_b() -> Vec<Vec<Stmt>> {
                                 l0.push(usage.clone());
                             }
                         }
+                        // with an explicit segment everything is placed from the very first pass on, so a use in
+                        // front of the definition it belongs to finds an outer symbol of the same name defined
+                        let mut with_segment = vec![Stmt::Define {
+                            kind: "segment",
+                            pairs: vec![("name".to_string(), string("main")), ("start".to_string(), lit("$3000"))],
+                        }];
+                        with_segment.extend(l0.clone());
                         out.push(l0);
+                        out.push(with_segment);
                     }
                 }
             }
@@ -489,7 +497,7 @@ pub fn run(ctx: &Ctx, replay: Option<&Value>) -> i32 {
     ctx.set("family_d_max_passes_needed", json!(max_passes.load(std::sync::atomic::Ordering::Relaxed)));
     ctx.finish(
         "exploration",
-        "A: every statement sequence of length <= k over 28 items (references to two labels in zero-page/absolute/indexed/branch/data positions, label definitions, a dependent constant, pc assignments, .align, text, braces, block start/end references) assembled at $00f8 so that every forward reference is a zero-page/absolute decision; B: 3-level scope shapes x definition mask x use level x 10 path forms x use before/after x instruction/data; C: 1-3 segments x start (3 literals or end of another segment) x pc relocation x cross references, each with segment blocks and with segment switches (`.segment \"x\"` without a block) behind code that belongs to the first segment; D: promotion ladders of chain length 1..40 (quick) / 1..90 (thorough) from two start addresses, which need chain+5 passes to settle. Every *successful* build is certified: label/block symbols = cursor addresses, every statement's bytes = ISA/evaluator result under the implementation's final symbols, no unexplained bytes, segments.x.start/end = ranges, VICE symbols = label values. non-trivial = distinct assembled program containing at least one symbol reference",
+        "A: every statement sequence of length <= k over 28 items (references to two labels in zero-page/absolute/indexed/branch/data positions, label definitions, a dependent constant, pc assignments, .align, text, braces, block start/end references) assembled at $00f8 so that every forward reference is a zero-page/absolute decision; B: 3-level scope shapes x definition mask x use level x 10 path forms x use before/after x instruction/data x default / explicitly defined segment; C: 1-3 segments x start (3 literals or end of another segment) x pc relocation x cross references, each with segment blocks and with segment switches (`.segment \"x\"` without a block) behind code that belongs to the first segment; D: promotion ladders of chain length 1..40 (quick) / 1..90 (thorough) from two start addresses, which need chain+5 passes to settle. Every *successful* build is certified: label/block symbols = cursor addresses, every statement's bytes = ISA/evaluator result under the implementation's final symbols, no unexplained bytes, segments.x.start/end = ranges, VICE symbols = label values. non-trivial = distinct assembled program containing at least one symbol reference",
         true,
         &[
             "sequence length bound k (4 quick / 5 thorough), two label names, fixed literal operands",
